@@ -93,6 +93,12 @@ def run(pid, tier, args):
                         what = "a deeply nested input, with and without the Trace option" if key[0] == "deep" else "calls without options before and after a call with AllowTrailing(true) on the same parser"
                         v.violation("%s (#%d): entry points disagree: %s" % (what, key[2], json.dumps(outs)[:500]), {"property": pid, "kind": "api-" + key[0], "calls": eps})
                     continue
+                if key[0] == "usererr":
+                    # errors raised by user code (nested Parseable, token mapper): the same through every entry point
+                    if len(set(eps.values())) > 1:
+                        v.violation("errors from user code (%s), input #%d: entry points disagree: %s" % ("a token mapper configured" if key[1] else "nested Parseable", key[2], json.dumps(eps)[:600]),
+                                    {"property": pid, "kind": "api-usererr", "calls": eps})
+                    continue
                 if key[0] in ("textcfg", "textdef"):
                     # static parser over a configured text/scanner lexer: relational checks only
                     outs = {ep: eps[ep] for ep in PARSE_EPS if ep in eps}
